@@ -144,6 +144,8 @@ func (s *MultipartReply) UnmarshalBinary(data []byte) error {
 			repl = new(TableStats)
 		case MultipartType_Queue:
 			repl = new(QueueStats)
+		case MultipartType_PortDesc:
+			repl = NewPhyPort()
 		// FIXME: Support all types
 		case MultipartType_Experimenter:
 			break
